@@ -550,6 +550,26 @@ def c_next_ret(a, b):
     cands = (a + s for s in (0, 1, 2))
     return next((ev(('hit', x)) for x in cands if x > b), None)
 
+def h_takefirst(items):
+    items = items[:]
+    first = [items.pop(0)]
+    return first, items
+
+def c_roundtrip(a, b):
+    items = [a, b, 3]
+    first, items = h_takefirst(items)
+    while items:
+        first.append(items.pop(0) + 1)
+    return first, items
+
+def c_roundtrip_rebound(a, b):
+    s = [a, b]
+    t = s
+    t = t + [1]
+    s = t
+    s = s + [2]            # s is re-bound after the copy back: t keeps the shorter list
+    return s, t
+
 def c_meth(v, a):
     return K(v).caller_m(a)
 
@@ -608,7 +628,7 @@ def main():
         'c_plain': itertools.product(vals, vals), 'c_withifexp': [(v,) for v in vals],
         'c_alias': [(None, v) for v in vals],
         'c_copy': itertools.product(vals, vals), 'c_copy_later': itertools.product(vals, vals), 'c_copy_loop': itertools.product(vals, vals),
-        'c_copy_swap': itertools.product(vals, vals), 'c_run': itertools.product(vals, vals), 'c_next': itertools.product(vals, vals), 'c_next_ret': itertools.product(vals, vals), 'c_run_swapped': itertools.product(vals, vals),
+        'c_copy_swap': itertools.product(vals, vals), 'c_run': itertools.product(vals, vals), 'c_next': itertools.product(vals, vals), 'c_next_ret': itertools.product(vals, vals), 'c_roundtrip': itertools.product(vals, vals), 'c_roundtrip_rebound': itertools.product(vals, vals), 'c_run_swapped': itertools.product(vals, vals),
         'c_rng_swapped': itertools.product(vals, vals), 'c_closure': itertools.product(vals, vals), 'c_try_rest': [(v,) for v in vals], 'c_try_ret': [(v,) for v in vals], 'c_try_norets': [(v,) for v in vals], 'c_rng_self': itertools.product(vals, vals),
     }
     bad = 0
